@@ -25,9 +25,11 @@
 //! `==` is judged by the model: equal iff the two REMAINING value sequences are equal (vek: "Debug, PartialEq and
 //! Hash only consider the elements that weren't yielded"), and by the ledger: no read of a yielded element.
 
-use crate::ledger::{self, Ctx, St, Tracked};
+use crate::ledger::{self, Ctx, Obs, St, Tracked};
+use crate::observers::{check_fmt, hash_view, DEBUG_SPECS, N_SINKS, SINK_NAMES};
 use crate::shapes::VecOps;
-use crate::{explain, hash_of, Guard};
+use crate::{explain, Guard};
+use std::fmt::Debug;
 use std::collections::VecDeque;
 use std::sync::OnceLock;
 use vkit::*;
@@ -803,8 +805,9 @@ where
 pub enum OOp {
     Len,
     SizeHint,
-    Debug,
-    /// hash both; if the model says the remaining sequences are equal the hashes must be equal (Hash/Eq contract)
+    /// format both iterators with `DEBUG_SPECS[spec]` into sink `sink`: exactly the live elements are looked at, in order
+    Debug { spec: u8, sink: u8 },
+    /// hash both (every route of `observers::hash_view`, and as members of a `HashSet`); if the model says the remaining sequences are equal the hashes must be equal (Hash/Eq contract)
     Hash,
     /// `a == b`, `a != b`, `b == a`, `b != a` against the model (remaining value sequences)
     Eq,
@@ -815,14 +818,14 @@ pub enum OOp {
     /// the vector type's own `FromIterator` fed from `by_ref()`: remaining elements in order, tail `Default`
     FromIterSelf,
 }
-const ALL_OOPS: [OOp; 8] = [OOp::Len, OOp::SizeHint, OOp::Debug, OOp::Hash, OOp::Eq, OOp::SelfEq, OOp::Swap, OOp::FromIterSelf];
+const ALL_OOPS: [OOp; 8] = [OOp::Len, OOp::SizeHint, OOp::Debug { spec: 0, sink: 0 }, OOp::Hash, OOp::Eq, OOp::SelfEq, OOp::Swap, OOp::FromIterSelf];
 
 impl OOp {
     fn name(self) -> &'static str {
         match self {
             OOp::Len => "obs:len",
             OOp::SizeHint => "obs:size_hint",
-            OOp::Debug => "obs:{:?}",
+            OOp::Debug { .. } => "obs:Debug(format spec x sink)",
             OOp::Hash => "obs:hash(pair)",
             OOp::Eq => "obs:==,!=(pair)",
             OOp::SelfEq => "obs:self==self",
@@ -1004,29 +1007,52 @@ pub fn run_ext<V: VecOps<N>, const N: usize>(setup: &Setup, steps: &[Step], fin:
                         check_eq!(cx, it.size_hint(), (m_it.q.len(), Some(m_it.q.len())), "{}: size_hint()", here());
                         check_eq!(cx, ot.size_hint(), (m_ot.q.len(), Some(m_ot.q.len())), "{}: size_hint() of the second iterator", here());
                     }
-                    OOp::Debug => {
-                        let r = vkit::catch(|| ledger::with_ctx(Ctx::IterDebug, || (format!("{:?}", *it), format!("{:?}", *ot))));
-                        cx.count();
-                        if let Err(msg) = r {
-                            fail!("{}: {{:?}} panicked: {}", here(), msg);
+                    OOp::Debug { spec, sink } => {
+                        let sp = &DEBUG_SPECS[spec as usize % DEBUG_SPECS.len()];
+                        let sink = sink as usize % N_SINKS;
+                        cx.label(SINK_NAMES[sink]);
+                        if sp.name != "{:?}" {
+                            cx.label("fmt:non-default-flags");
                         }
+                        for (which, g, m) in [("first", &it, &m_it), ("second", &ot, &m_ot)] {
+                            let ids: Vec<u32> = m.q.iter().map(|x| x.id).collect();
+                            let vals: Vec<u32> = m.q.iter().map(|x| x.val).collect();
+                            ledger::with_ctx(Ctx::IterDebug, || check_fmt(cx, Obs::Debug, sp, sink, &***g as &dyn Debug, &ids, &vals, true, &|| format!("{} ({} iterator)", here(), which)))?;
+                        }
+                        pair_obs_moved |= moved;
                     }
                     OOp::Hash => {
-                        let r = vkit::catch(|| ledger::with_ctx(Ctx::IterHash, || (hash_of(&*it), hash_of(&*ot))));
-                        let (h1, h2) = match r {
+                        let r = vkit::catch(|| {
+                            ledger::with_ctx(Ctx::IterHash, || {
+                                let (h1, h2) = (hash_view(&**it), hash_view(&**ot));
+                                let mut set: std::collections::HashSet<&V::It, std::hash::BuildHasherDefault<std::collections::hash_map::DefaultHasher>> = Default::default();
+                                set.insert(&**it);
+                                set.insert(&**ot);
+                                (h1, h2, set.len())
+                            })
+                        });
+                        let (h1, h2, members) = match r {
                             Ok(h) => h,
                             Err(msg) => fail!("{}: hash panicked: {}", here(), msg),
                         };
                         let equal = m_it.q.iter().map(|x| x.val).eq(m_ot.q.iter().map(|x| x.val));
                         if equal {
                             cx.label("pair:equal-remaining-sequences");
-                            check!(cx, h1 == h2, "{}: the remaining sequences are equal ({:?}) but the iterators hash differently ({:#x} vs {:#x}) - Hash/Eq contract", here(), m_it.q.iter().map(|x| x.val).collect::<Vec<_>>(), h1, h2);
+                            check!(cx, h1 == h2, "{}: the remaining sequences are equal ({:?}) but the iterators hash differently on some route {:?} - Hash/Eq contract: {:?} vs {:?}", here(), m_it.q.iter().map(|x| x.val).collect::<Vec<_>>(), crate::observers::HASH_MODES, h1, h2);
                         }
+                        check!(cx, members == if equal { 1 } else { 2 }, "{}: a HashSet holding both iterators has {} members, remaining sequences equal = {}", here(), members, equal);
                         pair_obs_moved |= moved;
                     }
                     OOp::Eq => {
-                        let r = vkit::catch(|| ledger::with_ctx(Ctx::IterEq, || (*it == *ot, *it != *ot, *ot == *it, *ot != *it)));
-                        let (e1, n1, e2, n2) = match r {
+                        let r = vkit::catch(|| {
+                            ledger::with_ctx(Ctx::IterEq, || {
+                                let (a, b): (&V::It, &V::It) = (&**it, &**ot);
+                                // the same question through references, Option, arrays, tuples and the trait methods by name
+                                let forms = [a == b, !(a != b), Some(a) == Some(b), !(Some(a) != Some(b)), [a] == [b], !([a] != [b]), (a, 1u8) == (b, 1u8), !((a, 1u8) != (b, 1u8)), PartialEq::eq(a, b), !PartialEq::ne(a, b), [a, a] == [b, b], !((b, a) != (a, b))];
+                                ((*a == *b, *a != *b, *b == *a, *b != *a), forms)
+                            })
+                        });
+                        let ((e1, n1, e2, n2), forms) = match r {
                             Ok(v) => v,
                             Err(msg) => fail!("{}: == panicked: {}", here(), msg),
                         };
@@ -1039,6 +1065,10 @@ pub fn run_ext<V: VecOps<N>, const N: usize>(setup: &Setup, steps: &[Step], fin:
                         cx.count();
                         if (e1, n1, e2, n2) != (equal, !equal, equal, !equal) {
                             fail!("{}: remaining values {:?} vs {:?}: (a==b, a!=b, b==a, b!=a) = {:?}, want {:?}", here(), va, vb, (e1, n1, e2, n2), (equal, !equal, equal, !equal));
+                        }
+                        cx.count();
+                        if forms.iter().any(|&f| f != equal) {
+                            fail!("{}: remaining values {:?} vs {:?}: the comparison through [&a==&b, !(&a!=&b), Some==, !(Some!=), [a]==[b], !([a]!=[b]), (a,1)==(b,1), !(tuple !=), PartialEq::eq, !PartialEq::ne, [a,a]==[b,b], !((b,a)!=(a,b))] gives {:?}, want all {}", here(), va, vb, forms, equal);
                         }
                         pair_obs_moved |= moved;
                     }
@@ -1196,8 +1226,13 @@ fn expand(two_operand: bool) -> Vec<Variant> {
     if two_operand {
         v.push(Variant::O(OOp::Swap));
     } else {
-        for op in [OOp::Debug, OOp::SelfEq, OOp::FromIterSelf] {
+        for op in [OOp::SelfEq, OOp::FromIterSelf] {
             v.push(Variant::O(op));
+        }
+        for spec in 0..DEBUG_SPECS.len() {
+            for sink in 0..N_SINKS {
+                v.push(Variant::O(OOp::Debug { spec: spec as u8, sink: sink as u8 }));
+            }
         }
     }
     for &op in FOp::ALL {
@@ -1368,7 +1403,7 @@ fn any_arg(t: &mut Tape) -> Arg {
 }
 
 pub const RANDOM_STEPS: usize = 10;
-pub const EXT_RANDOM_TAPE_LEN: usize = 8 + 5 * RANDOM_STEPS + 5;
+pub const EXT_RANDOM_TAPE_LEN: usize = 8 + 6 * RANDOM_STEPS + 5;
 
 /// Random histories over the whole alphabet on two iterators that are driven independently.
 pub fn ext_random_case<V: VecOps<N>, const N: usize>(t: &mut Tape, cx: &mut Cx) -> CaseResult {
@@ -1388,7 +1423,13 @@ pub fn ext_random_case<V: VecOps<N>, const N: usize>(t: &mut Tape, cx: &mut Cx) 
         let other = t.chance(64);
         match t.below(16) {
             0..=3 => steps.push(Step::P { op: if t.bool() { POp::NextBack } else { POp::Next }, a: Arg::Zero, b: Arg::Zero, other }),
-            4..=6 => steps.push(Step::O { op: ALL_OOPS[t.below(ALL_OOPS.len())], other }),
+            4..=6 => {
+                let op = match ALL_OOPS[t.below(ALL_OOPS.len())] {
+                    OOp::Debug { .. } => OOp::Debug { spec: t.below(DEBUG_SPECS.len()) as u8, sink: t.below(N_SINKS) as u8 },
+                    o => o,
+                };
+                steps.push(Step::O { op, other })
+            }
             _ => {
                 let op = POp::ALL[t.below(POp::ALL.len())];
                 steps.push(Step::P { op, a: any_arg(t), b: any_arg(t), other });
